@@ -37,15 +37,16 @@ type tierCfg struct {
 }
 
 type propCfg struct {
-	Stmt   bool // statement-level yields
-	Level  string
-	Quick  tierCfg
-	Thor   tierCfg
-	Race   bool
-	Rule   string
-	Real   []string
-	Stubs  []string
-	Assume []string
+	FreshProc int  // additional runs executed one per fresh worker process (first-use-in-process behaviour)
+	Stmt      bool // statement-level yields
+	Level     string
+	Quick     tierCfg
+	Thor      tierCfg
+	Race      bool
+	Rule      string
+	Real      []string
+	Stubs     []string
+	Assume    []string
 }
 
 var props = map[string]propCfg{}
@@ -733,6 +734,37 @@ func cmdCheck(prop, tier string) int {
 		br = runWorkers(binRace, dir, prop, seed, tc.RaceRuns, tc, W, true, "", false)
 	} else {
 		br = &batch{sigs: map[uint64]struct{}{}}
+	}
+
+	// runs executed one per fresh process: lazily initialised package state is
+	// "first used" once per process, so these give first-use races many chances
+	if pc.FreshProc > 0 {
+		fp := pc.FreshProc
+		if tier == "thorough" {
+			fp *= 8
+		}
+		for off := 0; off < fp; off += 64 {
+			n := fp - off
+			if n > 64 {
+				n = 64
+			}
+			fb := runWorkers(binPlain, dir, prop, seed+uint64(off)+1, uint64(n), tc, n, false, "", false)
+			bp.results = append(bp.results, fb.results...)
+			bp.crashes = append(bp.crashes, fb.crashes...)
+			bp.crashAt = append(bp.crashAt, fb.crashAt...)
+			for k := range fb.sigs {
+				bp.sigs[k] = struct{}{}
+			}
+			if pc.Race {
+				fr := runWorkers(binRace, dir, prop, seed+uint64(off)+1, uint64(n), tc, n, true, "", false)
+				br.results = append(br.results, fr.results...)
+				br.crashes = append(br.crashes, fr.crashes...)
+				br.crashAt = append(br.crashAt, fr.crashAt...)
+				for k := range fr.sigs {
+					br.sigs[k] = struct{}{}
+				}
+			}
+		}
 	}
 
 	// determinism spot check on every invocation: the same 24 runs in two fresh
